@@ -391,7 +391,18 @@ class VCondition:
         self.lock.owner = None
         token = [False]
         self.waiters.append(token)
-        ctrl.sched_point('cond.wait', lambda: token[0] and self.lock.owner is None)
+        entered = ctrl.steps
+        spurious = getattr(ctrl, 'spurious', None)
+        # optional spurious wake-ups (allowed by the documentation of threading.Condition):
+        # the waiter becomes runnable ``spurious`` scheduling points after it went to sleep,
+        # notified or not.  They never rescue a deadlock: steps only advance while some
+        # thread runs.
+        ctrl.sched_point('cond.wait', lambda: (token[0] or (spurious and ctrl.steps - entered >= spurious))
+                         and self.lock.owner is None)
+        if not token[0]:
+            ctrl.note('cond.spurious-wakeup')
+            if token in self.waiters:
+                self.waiters.remove(token)
         self.lock.owner = me
         self.lock.count = saved
         return True
@@ -526,7 +537,7 @@ def modules():
     return _LOADED['env'], _LOADED['queue']
 
 
-def run_controlled(schedule, body, max_steps=20000, clock_start=0, ticks=None):
+def run_controlled(schedule, body, max_steps=20000, clock_start=0, ticks=None, spurious=None):
     """Run ``body()`` as the master thread under ``schedule``.
 
     Returns (ctrl, how, value) with how in 'returned' | 'raised' | 'aborted'."""
@@ -537,6 +548,7 @@ def run_controlled(schedule, body, max_steps=20000, clock_start=0, ticks=None):
     ctrl = Controller(schedule, max_steps=max_steps)
     ctrl.clock = clock_start
     ctrl.ticks = list(ticks) if ticks else None
+    ctrl.spurious = int(spurious) if spurious else None
     CTRL = ctrl
     ctrl.adopt_current('master')
     how, value = None, None
